@@ -248,7 +248,7 @@ struct Lossy {
         //  expected loss is low - at 1 % a steady 3 kHz tone is quantised to an all-zero excitation and the copy is, by design, near-silent;
         //  from 13 % on the coarsening is at its minimum of 2 steps)
         if (log[k + 1].loss_perc < 13) nf = -1;
-        if (nf > 0 && !(log[k + 1].pkt[0] & 4) && !(rc.pkt[0] & 4) && (rc.pkt[0] & 3) == 0 && (rc.pkt[0] >> 3) == (log[k + 1].pkt[0] >> 3) && k >= 1 && (log[k - 1].pkt[0] >> 3) == (rc.pkt[0] >> 3)) {   // same mode, bandwidth and duration before, at and after the loss
+        if (nf > 0 && (log[k + 1].pkt[0] & 4) == (rc.pkt[0] & 4) && (k < 1 || (log[k - 1].pkt[0] & 4) == (rc.pkt[0] & 4)) && (rc.pkt[0] & 3) == 0 && (rc.pkt[0] >> 3) == (log[k + 1].pkt[0] >> 3) && k >= 1 && (log[k - 1].pkt[0] >> 3) == (rc.pkt[0] >> 3)) {   // same mode, bandwidth and duration before, at and after the loss
           size_t per = pr.size() / (size_t)nf;
           for (int f = 0; f < nf; f++) if ((mid >> f) & 1) {
             double er = 0, ef = 0;
@@ -258,10 +258,12 @@ struct Lossy {
             // the level to reach is the quieter of what the loss-free twin plays and what the encoder was given: on decaying or swept material
             // the regular decode can be several times louder than the input (gain-decrease clamp, resonating synthesis filter) while the
             // redundant copy, coded afresh, follows the input
+            double er_hi = std::max(er, rc.in_rms); bool st2 = (rc.pkt[0] & 4) != 0;
             er = std::min(er, rc.in_rms);
             run.count("fec_frame_level_checked"); if (f > 0 && !((mid >> (f - 1)) & 1)) run.count("fec_frame_level_checked_first_lbrr_frame_not_first");
             long milli = (long)(std::max(0.0, 1.0 - ef / er) * 1000); if (run.stat["max:fec_frame_level_deficit_milli"] < milli) run.stat["max:fec_frame_level_deficit_milli"] = milli;
-            if (getenv("OPSIM_CALIB")) fprintf(stderr, "C09FECLVL ratio=%.4f ref=%.4f f=%d nf=%d flags=%d mode=%d fam=%d seed=%llu k=%zu\n", ef / er, er, f, nf, mid, rc.mode, rc.fam, (unsigned long long)cur_seed, k);
+            if (getenv("OPSIM_CALIB")) fprintf(stderr, "C09FECLVL ratio=%.4f ref=%.4f f=%d nf=%d flags=%d mode=%d fam=%d seed=%llu k=%zu hi=%.4f st=%d\n", ef / er, er, f, nf, mid, rc.mode, rc.fam, (unsigned long long)cur_seed, k, ef / er_hi, (int)st2);
+            else if (ef > UPSILON * er_hi) REPORT(run, prop, "fec_frame_with_lbrr_data_far_too_loud", "packet %zu, SILK frame %d of %d: loss-free rms %.4f, input rms %.4f, FEC rms %.4f (x%.1f)", k, f, nf, er, rc.in_rms, ef, ef / er_hi);
             else if (ef < (flavour == 1 ? LAMBDA_PROBE : LAMBDA) * er) REPORT(run, prop, "fec_frame_with_lbrr_data_near_silent", "packet %zu, SILK frame %d of %d (LBRR flags of the next packet: %d%d%d): loss-free rms %.4f, FEC rms %.4f (x%.3f)", k, f, nf, mid & 1, (mid >> 1) & 1, (mid >> 2) & 1, er, ef, ef / er);
           }
         }
@@ -304,7 +306,7 @@ struct Lossy {
   }
   // calibrated bounds (calib/thresholds.json C09.*)
   static constexpr double KAPPA_NB = 11.0; double KAPPA = 36.0;   // (a regression plan may carry its own, plan-specific bound in the header) 
-  static constexpr double RHO = 0.1, THETA_DB = -20.0; double LAMBDA = 0.03, LAMBDA_PROBE = 0.08;   // (a regression plan may carry its own, sharper bound in the header)
+  static constexpr double RHO = 0.1, THETA_DB = -20.0; double LAMBDA = 0.02, LAMBDA_PROBE = 0.08, UPSILON = 15.0;   // (a regression plan may carry its own, sharper bound in the header)
   void finish_recovery(double err, double ref, long samples, bool celt) {
     if (ref <= 0) return;
     double db = 10 * log10(std::max(err / ref, 1e-12));
